@@ -8,7 +8,7 @@ Local Open Scope R_scope.
 
 (* from E : e = 0 (e polynomial in the variables and sqrt 2) conclude that a rational expression vanishes *)
 Ltac vanish E :=
-  field_simplify_eq; [ | try exact sqrt2_neq0 ];
+  field_simplify_eq; [ | try exact sqrt2_neq0 .. ];
   revert E; generalize sqrt2_sq; generalize (sqrt 2);
   let q := fresh "q" in let Hq := fresh "Hq" in intros q Hq E; cbv [Rpow_def.pow] in *; timeout 120 nsatz.
 (* a denominator is non zero: sqrt 2, a numeral, or something that vanishes only if the hypothesis
